@@ -10,7 +10,22 @@ def _msg(run):
             "quick": {"shards": 1, "timeout": 900}, "thorough": {"shards": 16, "timeout": 3000}}
 
 
+def _node(run, quick_shards=1, **kw):
+    d = {"pkg": "node", "run": run,
+         "quick": {"shards": quick_shards, "timeout": 1200, "shrinktime": 45},
+         "thorough": {"shards": 16, "timeout": 3600, "shrinktime": 90, "GOMAXPROCS": "vary"}}
+    d.update(kw)
+    return d
+
+
 CHECKS = {
+    "C10": _node("^TestC10"),
+    "C11": _node("^TestC11"),
+    "C12": _node("^TestC12"),
+    "C13": _node("^TestC13"),
+    "C14": _node("^TestC14"),
+    "C15": _node("^TestC15", race=True),
+    "C16": _node("^TestC16"),
     "C03": _msg("^TestC03"),
     "C04": _msg("^TestC04"),
     "C17": _msg("^TestC17"),
@@ -23,13 +38,13 @@ CHECKS = {
             "quick": {"shards": 1, "timeout": 600}, "thorough": {"shards": 16, "timeout": 2400}},
     "C05": {"pkg": "wire", "run": "^TestC05",
             "quick": {"shards": 1, "timeout": 600}, "thorough": {"shards": 16, "timeout": 2400}},
-    "C06": {"pkg": "wire", "run": "^TestC06",
+    "C06": {"parts": [{"pkg": "wire", "run": "^TestC06"}, {"pkg": "node", "run": "^TestC06"}],
             "quick": {"shards": 1, "timeout": 600}, "thorough": {"shards": 16, "timeout": 2400}},
     "C07": {"pkg": "wire", "run": "^TestC07",
             "quick": {"shards": 1, "timeout": 600}, "thorough": {"shards": 16, "timeout": 2400}},
     "C08": {"pkg": "wire", "run": "^TestC08",
             "quick": {"shards": 1, "timeout": 600}, "thorough": {"shards": 16, "timeout": 2400}},
-    "C09": {"pkg": "wire", "run": "^TestC09",
+    "C09": {"parts": [{"pkg": "wire", "run": "^TestC09"}, {"pkg": "node", "run": "^TestC09"}],
             "quick": {"shards": 1, "timeout": 600}, "thorough": {"shards": 16, "timeout": 2400}},
     "C20": {"pkg": "wire", "run": "^TestC20",
             "quick": {"shards": 1, "timeout": 600}, "thorough": {"shards": 16, "timeout": 2400}},
@@ -41,4 +56,10 @@ ASSUMPTIONS = {
         "Go standard library, rapid v1.3.0 and the Go toolchain are trusted",
         "exploration, not proof: generated-input search finds violations, it does not establish absence",
     ],
+}
+
+# Crash signatures of listed known findings (key -> regex over the test output). Only active while
+# known_findings.txt lists a `known:` entry with that key for the property being checked.
+KNOWN_CRASH_SIGNATURES = {
+    "pion-udp-accept-close-race": r"sync: (WaitGroup is reused before previous Wait has returned|negative WaitGroup counter|WaitGroup misuse)[\s\S]{0,600}pion/transport/v2/udp",
 }
